@@ -22,13 +22,15 @@ func main() {
 		os.Exit(cmdCheck(os.Args[2:]))
 	case "replay":
 		os.Exit(cmdReplay(os.Args[2:]))
+	case "selftest":
+		os.Exit(cmdSelftest(os.Args[2:]))
 	default:
 		usage()
 	}
 }
 
 func usage() {
-	fmt.Fprintln(os.Stderr, "usage: gosym run --pkg <dir> --func <name> | check <id> [--tier quick|thorough] | replay <cex.json>")
+	fmt.Fprintln(os.Stderr, "usage: gosym run --pkg <dir> --func <name> | check <id> [--tier quick|thorough] | replay <cex.json> | selftest")
 	os.Exit(2)
 }
 
